@@ -124,16 +124,12 @@ static int encodeAsRaw(KSI_TLV *tlv) {
 		goto cleanup;
 	}
 
-	if (tlv->buffer == NULL) {
-		buf_size = 0xffff + 1;
-		buf = KSI_calloc(buf_size, 1);
-		if (buf == NULL) {
-			KSI_pushError(tlv->ctx, res = KSI_OUT_OF_MEMORY, NULL);
-			goto cleanup;
-		}
-	} else {
-		buf = tlv->buffer;
-		buf_size = tlv->buffer_size;
+	/* The nested elements may still point into the present buffer: serialize into a new one. */
+	buf_size = 0xffff + 1;
+	buf = KSI_calloc(buf_size, 1);
+	if (buf == NULL) {
+		KSI_pushError(tlv->ctx, res = KSI_OUT_OF_MEMORY, NULL);
+		goto cleanup;
 	}
 
 	payloadLength = buf_size;
@@ -143,6 +139,7 @@ static int encodeAsRaw(KSI_TLV *tlv) {
 		goto cleanup;
 	}
 
+	KSI_free(tlv->buffer);
 	tlv->buffer = buf;
 	tlv->buffer_size = buf_size;
 
